@@ -44,6 +44,11 @@ def run_shard(sh):
                         if n < len(sh['first']):
                             continue
                         text = sh['first'] + ''.join(tup)
+                        if sh.get('textstream'):
+                            # the 'binary' encoding over a text stream: the same compositions delivered as latin-1 strings instead of Buffers
+                            cases.append({'op': 'readcomp', 'hex': text.encode('utf-8').hex(), 'encoding': 'binary', 'dlm': dlm, 'policy': policy, 'has_header': has_header, 'comment_prefix': comment, 'text_stream': True})
+                            meta.append((text, text, 'binary', dlm, policy, has_header, comment))
+                            continue
                         cases.append({'op': 'readcomp', 'hex': text.encode('utf-8').hex(), 'encoding': 'utf-8', 'dlm': dlm, 'policy': policy, 'has_header': has_header, 'comment_prefix': comment,
                                       'also_slow_consumer': sh.get('slow', False)})
                         meta.append((text, text, 'utf-8', dlm, policy, has_header, comment))
@@ -72,11 +77,16 @@ def run_shard(sh):
                     for comment in (None, '#'):
                         cases.append({'op': 'readcomp', 'hex': data.hex(), 'encoding': enc, 'dlm': dlm, 'policy': policy, 'has_header': has_header, 'comment_prefix': comment})
                         meta.append((s, data.decode('utf-8' if enc == 'utf-8' else 'latin-1'), enc, dlm, policy, has_header, comment))
+                        if enc == 'binary':
+                            cases.append({'op': 'readcomp', 'hex': data.hex(), 'encoding': enc, 'dlm': dlm, 'policy': policy, 'has_header': has_header, 'comment_prefix': comment, 'text_stream': True})
+                            meta.append((s, data.decode('latin-1'), enc, dlm, policy, has_header, comment))
     else:
         return run_bigfile(sh, res)
     outs = js.run_batch(cases)
-    for (orig, text, enc, dlm, policy, has_header, comment), out in zip(meta, outs):
+    for (orig, text, enc, dlm, policy, has_header, comment), out, cs in zip(meta, outs, cases):
         n = len(orig.encode('utf-8'))
+        if cs.get('text_stream'):
+            res.feat('text_stream_deliveries', out['executions'])
         res.evaluations += out['executions'] + 2
         res.traces += out['executions'] + 2
         res.states += (1 << n) if n <= 12 else out['executions'] + 1
@@ -84,6 +94,8 @@ def run_shard(sh):
             res.feat('long_input_deliveries', out['executions'])
         res.transitions += out['chunks'] + 1
         case = {'text': orig, 'encoding': enc, 'dlm': dlm, 'policy': policy, 'has_header': has_header, 'comment': comment}
+        if cs.get('text_stream'):
+            case['text_stream'] = True
         base = js_result_to_ref_shape(out['base'], has_header)
         bulk = js_result_to_ref_shape(out['bulk'], has_header)
         multibyte = any(ord(c) > 127 for c in orig)
@@ -185,6 +197,8 @@ def main(tier, seed):
         # the same deliveries consumed one record per event-loop turn (an asynchronous writer downstream), length <= 4
         for f1 in s2:
             shards.append({'kind': 'ascii', 'syms': s2, 'policy': pol, 'first': f1, 'minlen': 1, 'maxlen': 5 if T else 4, 'slow': True})
+        for f1 in s2:
+            shards.append({'kind': 'ascii', 'syms': s2, 'policy': pol, 'first': f1, 'minlen': 1, 'maxlen': 5 if T else 4, 'textstream': True})
     for s in SAMPLES:
         shards.append({'kind': 'utf8', 'sample': s})
     # long inputs under every single cut (first 400 positions + every 37th) and uniform chunk sizes: chunks of 128+ / 1024+ bytes, lines delivered in dozens of reads
@@ -204,11 +218,11 @@ def main(tier, seed):
         shards.append({'kind': 'bigfile', 'crits': [c]})
     res = core.run_shards('vf.checks.c20', shards)
     return core.finish(PID, tier, seed, res, t0,
-        rule='all byte compositions (2^(n-1)) of all inputs up to the length bound over {o, quote, comma (space for whitespace policy), LF, CR, #} x 5 policies x comment prefix x header, and of 10 UTF-8 samples (utf-8 and binary); '
+        rule='all byte compositions (2^(n-1)) of all inputs up to the length bound over {o, quote, comma (space for whitespace policy), LF, CR, #} x 5 policies x comment prefix x header, and of 10 UTF-8 samples (utf-8 and binary); the binary encoding also over a text stream (pieces delivered as latin-1 strings); '
              'states = delivery-tree nodes, transitions = chunks delivered; 64 KiB boundary files for every internal offset of 7 critical sequences; non-trivial = multi-chunk delivery of an input containing CR, a quote or a multi-byte character',
         assumptions=['the reader sees its input only through the data/end events of the stream; each prescribed piece is delivered in its own event-loop turn', 'RefCSV ref_read is the statement of the record rules'],
         extra={'bounds': {'ascii_len': 6 if T else 5, 'samples': SAMPLES}},
-        min_features={'multibyte_inputs': 100, 'crlf_inputs': 500, 'bigfile_cases': 20, 'long_input_deliveries': 2000})
+        min_features={'multibyte_inputs': 100, 'crlf_inputs': 500, 'bigfile_cases': 20, 'long_input_deliveries': 2000, 'text_stream_deliveries': 5000})
 
 
 def replay(rep):
